@@ -30,6 +30,7 @@ import DafRel.Bridge.RelOps
 
 namespace DafRel.Props.C15
 
+
 open DafRel
 
 /-- Reached from `t` through transfer nodes and Select markers only. -/
@@ -215,8 +216,8 @@ theorem materialize_sql_keeps_content (σ : Leaves) (st : Store) (fuel : Nat) (t
           | ok r =>
             simp only [ha] at h
             injection h with h; subst h
-            have gM : Good σ (Rel.mat 0 name (ct.get t)) :=
-              Good.atom _ rfl C.ok.wf C.ok.truthful (by show (ct.get t).engine.kind = _; rw [C.engine]; exact hk)
+            have gM : Good NodeInv.triv σ (Rel.mat 0 name (ct.get t)) :=
+              Good.atom _ rfl C.ok.wf C.ok.truthful (by show (ct.get t).engine.kind = _; rw [C.engine]; exact hk) trivial
             obtain ⟨_, W⟩ := good_wrap σ _ r gM rfl rfl ha
             show sem σ r = _ ∧ (∀ c, c ∈ r.columns ↔ _) ∧ r.WF ∧ r.engine = _
             exact ⟨by rw [W.sem_eq]; exact C.sem_eq, fun c => (W.cols c).trans (C.cols c), W.ok.wf,
